@@ -16,7 +16,7 @@ def run(chk):
     chk.rule = ("5-tuples of grid points: exhaustive over {0,1}^3 corners (strided in quick), random on {0,1,2}^3, random of bit widths 4..52, "
                 "extremes near 0 / 2^52-1, exactly co-spherical lattice tuples and their +-1 perturbations, corners of the full cube; "
                 "non-trivial = orientation != 0; distinct by tuple")
-    lean_ok = chk.lean(['MVoro.Props.C10'], ['MVoro.Obl.InSphere'], ['InSphere'])
+    lean_ok = chk.lean(['MVoro.Props.C10', 'MVoro.Proofs.Misc'], ['MVoro.Obl.InSphere', 'MVoro.Obl.Grid'], ['InSphere', 'Grid'])
     binary, blog = cargo_build('ibig,rayon')
     if binary is None:
         chk.violation('build', 'harness does not build against /repo', None)
@@ -66,3 +66,63 @@ def run(chk):
         chk.soft.append('InSphere fragment unparsed; implementation-vs-Ref correspondence agrees on all %d records' % chk.evaluations)
         # softening rule of DESIGN §5: drop the Gen obligations only
         chk.obligations = [o for o in chk.obligations if o['module'] != 'MVoro.Obl.InSphere']
+
+    # ---- second half: the map from positions to the grid
+    rec_f = os.path.join(chk.wdir(), 'iloc.rec')
+    mod_f = os.path.join(chk.wdir(), 'iloc.model')
+    rc, fams, err = run_harness(binary, 'iloc', chk.seed, chk.tier, rec_f)
+    if rc != 0:
+        chk.violation('harness', 'harness op iloc failed: ' + err[-300:], None)
+        return
+    kinds = {}
+    for k, v in fams.items():
+        kk = 'iloc_' + k.split('_')[0]
+        kinds[kk] = kinds.get(kk, 0) + v
+    chk.families.update(kinds)
+    run_driver(rec_f, mod_f)
+    recs = read_records(rec_f)
+    model = read_model(mod_f)
+    groups = {}
+    for r in recs:
+        if chk.only is not None and (r.op, r.id) not in chk.only:
+            continue
+        chk.count()
+        m = model.get(r.id)
+        rp = {'op': r.op, 'ids': [r.id], 'record': r.line}
+        if m is None or len(m) < 6:
+            chk.violation('driver', 'model produced no result for iloc record %d' % r.id, rp)
+            continue
+        exact_r = [Fraction(m[0]), Fraction(m[2]), Fraction(m[4])]
+        exact_i = [int(m[1]), int(m[3]), int(m[5])]
+        if r.res[0] == 'RANGE':
+            vals = [hex_to_float(x) for x in r.res[1:4]]
+            chk.violation('impl-vs-oracle', 'position of kind %s is rescaled to %s, outside [1, 2): iloc panics (debug) or wraps (release); exact value %s'
+                          % (r.family, vals, [float(x) for x in exact_r]), rp, key=r.family.split('_')[0])
+            continue
+        ii = [int(r.res[1]), int(r.res[2]), int(r.res[3])]
+        for a in range(3):
+            if not (0 <= ii[a] < 2 ** 52):
+                chk.violation('impl-vs-oracle', 'grid coordinate %d outside [0, 2^52)' % ii[a], rp, key='range')
+            # float evaluation of 1 + (x - a) * iw: a few ulps of [1,2) plus the rounding of a, iw themselves
+            aa, ww, xx = hex_to_frac(r.inp[2 + a]), hex_to_frac(r.inp[5 + a]), hex_to_frac(r.inp[8 + a])
+            allowed = 64 + 16 * (abs(aa) + 3 * abs(ww) + abs(xx)) / abs(ww)
+            if abs(ii[a] - exact_i[a]) > allowed:
+                gen_parsed2 = 'Grid' not in chk.unparsed
+                if gen_parsed2:
+                    chk.violation('impl-vs-model', 'grid coordinate %d of axis %d differs from the exact value %d by more than rounding (kind %s)' % (ii[a], a, exact_i[a], r.family), rp, key='value')
+            if not (Fraction(17, 16) <= exact_r[a] <= Fraction(31, 16)) and 'Grid' not in chk.unparsed:
+                chk.violation('gen-vs-ref', 'exact rescaled coordinate %s leaves [17/16, 31/16] (kind %s)' % (float(exact_r[a]), r.family), rp if False else None, key='margin')
+        chk.traces += 1
+        chk.nontriv(('iloc', tuple(r.inp)))
+        groups.setdefault(tuple(r.inp[:8]), []).append((r, ii))
+    # monotone per axis inside one box
+    for key, lst in groups.items():
+        for a in range(3):
+            pts = sorted(((hex_to_frac(r.inp[8 + a]), ii[a], r) for (r, ii) in lst), key=lambda t: t[0])
+            for (x0, i0, r0), (x1, i1, r1) in zip(pts, pts[1:]):
+                if x0 is not None and x1 is not None and x0 <= x1 and i0 > i1:
+                    chk.violation('impl-vs-oracle', 'grid map not monotone on axis %d: %s -> %d but %s -> %d' % (a, float(x0), i0, float(x1), i1),
+                                  {'op': 'iloc', 'ids': [r0.id, r1.id], 'records': [r0.line, r1.line]}, key='monotone')
+    if len(chk.samples) < 6 and recs:
+        r = recs[len(recs) // 2]
+        chk.sample({'op': 'iloc', 'kind': r.family, 'impl': r.res[:4], 'model': model.get(r.id)})
